@@ -89,6 +89,28 @@ CHECKS = {
              "input truncated to the type's precision, in UTC. Thorough enumerates all 3,652,059 dates and all 86,400,000 "
              "time-millis values; decimals use a three-valued oracle (must raise / must succeed / either).",
         ref="DESIGN.md §4 C16"),
+    "C11": dict(
+        cat="exploration", tech="runtime monitoring: independent full-name resolver as oracle on generated valid schemas; single ill-forming mutations must raise the two named exception types",
+        text="parse_schema is run on generated valid schemas (every namespace spelling, references, recursion, defaults) and its "
+             "output is walked in parallel with the raw schema: names, reference strings and the named-schema dictionary must equal "
+             "what an independent implementation of the specification's namespace rules computes. Each schema is then hit with "
+             "single mutations of the 7 ill-formedness kinds of the statement at a random position; the call must raise "
+             "SchemaParseException or UnknownType (class identity).",
+        ref="DESIGN.md §4 C11"),
+    "C13": dict(
+        cat="exploration", tech="runtime monitoring: independent canonicaliser (anchored on the Apache vectors) compared as text; metamorphic cosmetic rewrites; cross-decoding",
+        text="to_parsing_canonical_form output is compared as text with an independent implementation of the specification's "
+             "transformation (itself checked against 13 Apache vectors), re-applied to its own output (fixed point), used as a "
+             "schema to write/read the same data (identical bytes, same values), and recomputed after random cosmetic rewrites of "
+             "10 kinds which must not change it.",
+        ref="DESIGN.md §4 C13"),
+    "C14": dict(
+        cat="exploration", tech="runtime monitoring: table-free bit-serial Rabin fingerprint and direct hashlib digests as oracles over random texts",
+        text="fingerprint() is compared on tens of thousands (thorough: millions) of Unicode texts, canonical forms and the Apache "
+             "fingerprint vectors with a bit-serial CRC-64-AVRO (no table) and with hashlib for every advertised fixed-length "
+             "algorithm and both Java spellings; about a hundred unknown-name variants must raise ValueError; the evidence reports "
+             "that all 256 table indices were driven.",
+        ref="DESIGN.md §4 C14"),
 }
 
 NOT_YET = "check not built yet in this session (see DESIGN.md §8 build order)"
